@@ -87,6 +87,7 @@ def install_static_stubs():
         _unraisable_installed = True
         STUBS_ACTIVE.append('logging disabled; proxy __format__/__str__ return placeholders (message formatting is not the subject)')
         STUBS_ACTIVE.append('EventBus.all_instances -> order-controlled weak set (iteration order is a configuration variable)')
+        STUBS_ACTIVE.append('module-level and class-level dict/list/set objects of the bubus modules are restored to their import-time content before every path (each path = a fresh process, as in the concrete replay)')
 
 
 _paths_since_gc = 0
@@ -126,10 +127,49 @@ def install_wal_stub(on_open=None, on_write=None):
     return lines
 
 
+def _mutable_globals():
+    """(owner, name, container) for every module-level / class-level plain dict, list or set of the bubus modules."""
+    import bubus.logging as blog
+    out = []
+    for mod in (models, service, helpers, blog):
+        for k, v in list(vars(mod).items()):
+            if type(v) in (dict, list, set) and not k.startswith('__'):
+                out.append((mod, k, v))
+        for cn, c in list(vars(mod).items()):
+            if isinstance(c, type) and getattr(c, '__module__', '') == mod.__name__:
+                for k, v in list(vars(c).items()):
+                    if type(v) in (dict, list, set) and not k.startswith('__') and not k.startswith('model_') and not k.startswith('_abc'):
+                        out.append((c, k, v))
+    return out
+
+
+# process-global mutable state of the library as it is right after import (caches, registries, whatever a tree under test adds):
+# every path starts from it, otherwise a path could see what an earlier path left behind and a replay in a fresh process would differ
+_GLOBALS_AT_IMPORT = [(o, k, v, (dict(v) if type(v) is dict else list(v) if type(v) is list else set(v))) for (o, k, v) in _mutable_globals()]
+
+
+def _restore_globals(skip=()):
+    for o, k, v, snap in _GLOBALS_AT_IMPORT:
+        if k in skip or getattr(o, k, None) is not v:
+            continue
+        if type(v) is dict:
+            if v != snap:
+                v.clear()
+                v.update(snap)
+        elif type(v) is list:
+            if v != snap:
+                v[:] = snap
+        else:
+            if v != snap:
+                v.clear()
+                v.update(snap)
+
+
 def reset(order=(), keep_semaphores=False):
     """Fresh process-global bubus state for one path."""
     global _paths_since_gc
     install_static_stubs()
+    _restore_globals(skip=('GLOBAL_RETRY_SEMAPHORES', 'GLOBAL_RETRY_SEMAPHORE_LOOPS') if keep_semaphores else ())
     if _real_open_file is not None:
         service.anyio.open_file = _real_open_file
     EventBus.all_instances = OrderedWeakSet(order)
